@@ -10,8 +10,12 @@ from synq import Syn, AnchorMissing
 EVID = os.path.join(VERIF, "evidence")
 if os.environ.get("VERIF_SELFTEST"):
     # self-test runs analyse scratch copies: their evidence must not replace the evidence of /repo
+    # (one directory per process: parallel self-test workers run the same property at the same time)
+    import atexit
+    import shutil
     import tempfile
-    EVID = os.path.join(tempfile.gettempdir(), "prql-selftest-evidence")
+    EVID = tempfile.mkdtemp(prefix="prql-selftest-evidence-")
+    atexit.register(shutil.rmtree, EVID, True)
 KNOWN = os.path.join(VERIF, "known_findings.json")
 
 
